@@ -95,6 +95,11 @@ def raise_sites(fi):
         if isinstance(n, ast.Assign) and isinstance(n.targets[0], (ast.Tuple, ast.List)) and from_split(n.value):
             c = n.value
             exact = isinstance(c, ast.Call) and call_name(c) in ('partition',)
+            # `first, *rest = s.split(sep)`: split() with a separator returns at least one element, the star takes the rest
+            elts = n.targets[0].elts
+            starred = sum(isinstance(t, ast.Starred) for t in elts)
+            if starred == 1 and len(elts) == 2 and isinstance(c, ast.Call) and call_name(c) in ('split', 'rsplit') and c.args:
+                exact = True
             if not exact:
                 out.append(('ValueError', n, f'unpack of {unparse(n.value)} into {len(n.targets[0].elts)} names'))
         if isinstance(n, ast.Call) and isinstance(n.func, ast.Name) and n.func.id in ('int', 'float', 'Decimal') and n.args \
